@@ -1,4 +1,5 @@
-\* C06 behaviour generation: 2 nodes, no tombstone collection, T = 1.
+\* C06 behaviour generation: 2 nodes, no tombstone collection, T = 1, gated workers with channel
+\* capacity 2 on both nodes.
 CONSTANTS
   N = 2
   NI = 2
@@ -14,6 +15,11 @@ CONSTANTS
   AllowGarbage = TRUE
   AllowPartition = TRUE
   AllowJunkPP = TRUE
+  GateNodes = {1, 2}
+  InboxCap = 2
+  VersionTest = TRUE
+  MaxDel = 0
+  ObsoleteTimeout = 1
   ConsumeNet = FALSE
   Ideal = TRUE
   Ghost = TRUE
@@ -23,6 +29,6 @@ CONSTANTS
   QRounds = 2
 INIT Init
 NEXT SimNext
-INVARIANTS TypeOK TombstonesInvisible NoInventedContent WatcherNeverStale QuiescentOK EmitDone
-PROPERTIES TombstonesForwarded NoResurrection GCOnlyExpired NoExpiredTombstoneStored OnlyChangesForwarded
+INVARIANTS TypeOK TombstonesInvisible NoInventedContent WatcherNeverStale PrefixWatcherNeverStale QuiescentOK EmitDone
+PROPERTIES TombstonesForwarded NoResurrection GCOnlyExpired NoExpiredTombstoneStored OnlyChangesForwarded DeletedStaysDeleted RemovedOnlyWhenObsolete DeletedNotRevived
 CHECK_DEADLOCK FALSE
